@@ -22,6 +22,12 @@ type LoopSpec struct {
 	Var        string // optional: name of a loop-carried variable that must be a phi of the header
 	Invariants []Clause
 	Decreases  *Clause
+	Exits      []Clause // must hold on every edge into the loop's exit block (normal exit and every break)
+}
+
+type StoreSite struct {
+	Field string // "Type.field"
+	Clause
 }
 
 type Contract struct {
@@ -29,6 +35,7 @@ type Contract struct {
 	Props    []string
 	Requires []Clause
 	Ensures  []Clause
+	StoreSites []StoreSite // obligations at every store to a named struct field in this function ($base, $val)
 	CallSites []Clause // obligations at every call through a function value in this function ($fnbase, $arg<i>, $callee)
 	Loops    map[int]*LoopSpec
 	Inline   bool     // body is inlined at call sites (its loop specs are used there)
@@ -68,7 +75,7 @@ type Spec struct {
 }
 
 var clauseKeywords = map[string]bool{"func": true, "requires": true, "ensures": true, "loop": true, "invariant": true,
-	"decreases": true, "lemma": true, "macro": true, "dyncallees": true, "fieldinv": true, "uses": true, "ghost": true, "axiom": true, "inline": true, "assigns": true, "callsite": true, "props": true, "trusted": true, "pure": true, "end": true}
+	"decreases": true, "lemma": true, "macro": true, "dyncallees": true, "fieldinv": true, "uses": true, "ghost": true, "axiom": true, "inline": true, "assigns": true, "callsite": true, "storesite": true, "exit": true, "props": true, "trusted": true, "pure": true, "end": true}
 
 // ParseSpec reads the //@ lines of the guarded contract file.
 func ParseSpec(lines []load.ContractLine) *Spec {
@@ -168,6 +175,24 @@ func ParseSpec(lines []load.ContractLine) *Spec {
 			if cur != nil {
 				cur.DynCallees = append(cur.DynCallees, strings.Fields(r.rest)...)
 			}
+		case "storesite":
+			if cur == nil {
+				sp.Errors = append(sp.Errors, fmt.Sprintf("line %d: storesite outside func", r.line))
+				continue
+			}
+			f := strings.SplitN(strings.TrimSpace(r.rest), " ", 2)
+			if len(f) != 2 {
+				sp.Errors = append(sp.Errors, fmt.Sprintf("line %d: storesite needs Type.field and a clause", r.line))
+				continue
+			}
+			r2 := r
+			r2.rest = f[1]
+			if c, ok := parseClause(r2); ok {
+				if c.Label == "" {
+					c.Label = strconv.Itoa(len(cur.StoreSites) + 1)
+				}
+				cur.StoreSites = append(cur.StoreSites, StoreSite{Field: f[0], Clause: c})
+			}
 		case "callsite":
 			if cur == nil {
 				sp.Errors = append(sp.Errors, fmt.Sprintf("line %d: callsite outside func", r.line))
@@ -218,6 +243,17 @@ func ParseSpec(lines []load.ContractLine) *Spec {
 				curLoop.Var = strings.Trim(f[1], "()")
 			}
 			cur.Loops[n] = curLoop
+		case "exit":
+			if curLoop == nil {
+				sp.Errors = append(sp.Errors, fmt.Sprintf("line %d: exit outside loop", r.line))
+				continue
+			}
+			if c, ok := parseClause(r); ok {
+				if c.Label == "" {
+					c.Label = strconv.Itoa(len(curLoop.Exits) + 1)
+				}
+				curLoop.Exits = append(curLoop.Exits, c)
+			}
 		case "invariant", "decreases":
 			if curLoop == nil {
 				sp.Errors = append(sp.Errors, fmt.Sprintf("line %d: %s outside loop", r.line, r.kw))
